@@ -76,7 +76,8 @@ def gen_notnew(rng, base):
         n['del'] = True
         base = copy.deepcopy(base)
         where = tuple(p)
-        inner = [q for q, m in nodes if len(q) > len(p) and q[:len(p)] == tuple(p) and m['t'] == 'map']
+        # (not inside list elements: a protected entry there makes the list renumber its survivors - the recorded C15 finding)
+        inner = [q for q, m in nodes if len(q) > len(p) and q[:len(p)] == tuple(p) and m['t'] == 'map' and all(isinstance(c, str) for c in q)]
         if inner and rng.random() < 0.5:
             where = tuple(rng.choice(inner))       # ... also when the protected entry sits further down: the removed paths are those of the whole merge
         try:
